@@ -31,8 +31,6 @@ var reviewedUnguarded = map[string]struct {
 	n      int
 	reason string
 }{
-	"(*listedPackage).obfuscatedSourceDir: hashWithPackage(param:p)":         {1, "name of the directory under garble's temp dir; never reaches the binary (-trimpath)"},
-	"(*transformer).transformAsm: hashWithPackage(*param:tf.curPkg)":         {2, "name of the temporary copy of an assembly file (both passes); hides the original file name even for non-selected packages"},
 	"(*transformer).transformLink$1: hashWithPackage(var lpkg)":              {1, "the duplicated -X flag for the obfuscated spelling; the linker ignores names that do not exist"},
 	"(*reflectInspector).obfuscatedObjectName: hashWithPackage(var lpkg)":    {1, "key under which the reflect inspector remembers a name; only consulted for names that were obfuscated"},
 	"(*reflectInspector).obfuscatedObjectName: hashWithStruct(param parent)": {1, "key under which the reflect inspector remembers a field name; field names are package-independent"},
@@ -42,7 +40,7 @@ func checkC14(c *Ctx) {
 	w := c.W
 	c.Rule("R14.1", "ToObfuscate is decided in one place", 1)
 	c.Rule("R14.2", "the decision excludes the runtime and its dependencies, runtime/cgo, fips140 and empty packages", 5)
-	c.Rule("R14.3", "a GOGARBLE value matching nothing being built is an error on every path of the top-level listing", 1)
+	c.Rule("R14.3", "a GOGARBLE value matching nothing being built is an error on every path of the top-level listing", 2)
 	c.Rule("R14.4", "every name derivation, literal obfuscation and position rewriting is guarded by ToObfuscate of its own package, or reviewed", 24)
 	c.Rule("R14.5", "GOGARBLE is part of garble's build hash", 1)
 
@@ -210,6 +208,89 @@ func checkC14(c *Ctx) {
 		}
 		c.Check(bad == "", "R14.3", "appendListedPackages no-match error", w.Pos(errRet.Pos()), "mainBuild && !anyToObfuscate && !matches(GOGARBLE, runtime) returns the error; every success return passes the test", bad)
 	}
+
+	// R14.3 (second part): "matches nothing *being built*". The top-level listing also lists
+	// packages nobody asked for (the std packages the runtime reaches through linknames are
+	// folded into the same go list call). A pattern that matches only those selects nothing
+	// of the user's build, so anyToObfuscate may only be raised by a package that is told
+	// apart from the folded-in ones.
+	func() {
+		foldsExtra := false
+		// linknamedToList() is appended to the packages of the top-level (mainBuild) listing
+		for _, cs := range w.CallsTo("mvdan.cc/garble.linknamedToList") {
+			if cs.Fn != alp {
+				continue
+			}
+			if v, ok := cs.Instr.(ssa.Value); ok && v.Referrers() != nil {
+				for _, r := range *v.Referrers() {
+					if call, ok := r.(*ssa.Call); ok && calleeName(call) == "builtin.append" {
+						foldsExtra = true
+					}
+				}
+			}
+		}
+		if !foldsExtra {
+			c.OK("R14.3", "anyToObfuscate counts only packages of the user's build", w.Pos(alp.Pos()), "the top-level go list names only the user's packages")
+			return
+		}
+		// the value of anyToObfuscate that the rejection tests: it must depend on something that
+		// tells the user's packages from the folded-in ones
+		distinguishes := false
+		var at token.Pos
+		for _, b := range alp.Blocks {
+			for _, in := range b.Instrs {
+				phi, ok := in.(*ssa.Phi)
+				if !ok || phi.Comment != "anyToObfuscate" || phi.Referrers() == nil {
+					continue
+				}
+				tested := false
+				for _, r := range *phi.Referrers() {
+					switch x := r.(type) {
+					case *ssa.If:
+						tested = true
+					case *ssa.UnOp:
+						tested = tested || x.Op == token.NOT
+					}
+				}
+				if !tested {
+					continue
+				}
+				at = phi.Pos()
+				sl := w.BackSlice(phi, sliceOpt{IntoCallees: true, Depth: 3})
+				if sl.Fields["listedPackage.Match"] || sl.Fields["listedPackage.DepOnly"] || sl.Fields["listedPackage.Deps"] ||
+					sl.HasCall("(*mvdan.cc/garble.listedPackage).hasDep") {
+					distinguishes = true
+				}
+				// predicates handed to library helpers (slices.ContainsFunc, ...) decide the value too
+				var scan func(fn *ssa.Function)
+				scan = func(fn *ssa.Function) {
+					for _, fb := range fn.Blocks {
+						for _, fi := range fb.Instrs {
+							if call, ok := fi.(*ssa.Call); ok && calleeName(call) == "(*mvdan.cc/garble.listedPackage).hasDep" {
+								distinguishes = true
+							}
+						}
+					}
+					for _, af := range fn.AnonFuncs {
+						scan(af)
+					}
+				}
+				for v := range sl.Values {
+					call, ok := v.(*ssa.Call)
+					if !ok {
+						continue
+					}
+					for _, a := range call.Call.Args {
+						if cf := closureFn(a); cf != nil && cf.Parent() == alp {
+							scan(cf)
+						}
+					}
+				}
+			}
+		}
+		c.Check(distinguishes, "R14.3", "anyToObfuscate counts only packages of the user's build", w.Pos(at), "the package raising the flag is told apart from the folded-in linknamed packages",
+			"the top-level go list also lists the runtime-linknamed std packages, and any listed package that matches GOGARBLE raises anyToObfuscate: a pattern that matches only such a package (crypto/rand, os/signal, arena, ...) in a program that does not use it is accepted, and the binary comes out completely unobfuscated")
+	}()
 
 	// R14.4
 	seen := map[string]int{}
